@@ -30,6 +30,8 @@ ASSUMPTIONS = [
     "implementation's own scalar results only",
     "acceptance of matrix-with-row/column-vector operands is not demanded by the property text; a rejection there would be "
     "recorded as advisory (none observed)",
+    "translator lemma (Gen/DispatchArms.v): the buildable configuration is taken to be the cfg features "
+    "{matrixd, vectord, row_vectord} (RowDVector/DVector/DMatrix only), as stated by the property",
 ]
 TRIVIAL_TAGS = ["rejected-shape", "rejected-kind"]
 
@@ -410,7 +412,7 @@ def generate(tier, rng):
     quick = tier == "quick"
     _tier[0] = "quick" if quick else "thorough"
     per = 8 if quick else 24
-    reps = 1 if quick else 4
+    reps = 1 if quick else 3
     budget = 4 if quick else 6
     cov_kf = set()
     cov_nc = set()
@@ -465,7 +467,7 @@ def generate(tier, rng):
                     n, m = pick_dims(rng)
                     emit(make_case(op, sym, k, inst(ca, n, m), "s", rng, "unary", ca, unary=True, budget=budget))
     # 3. incompatible shapes: must be errors
-    ninc = 3 if quick else 12
+    ninc = 2 if quick else 10
     for op, sym in BINOPS:
         for k in KINDS:
             if not accepts(op, k):
@@ -479,7 +481,7 @@ def generate(tier, rng):
         for k in KINDS:
             if accepts(op, k):
                 continue
-            for ca, cb in ([("S", "S"), ("Q", "Q"), ("R", "S")] if quick else COMPAT[:12]):
+            for ca, cb in ([("S", "S"), (rng.choice(["Q", "T", "R", "C", "M11"]),) * 2] if quick else COMPAT[:12]):
                 sa, sb = compat_shapes(ca, cb, rng)
                 emit(make_case(op, sym, k, sa, sb, rng, "no-arm", "%s-%s" % (ca, cb), unary=un, budget=2))
     # 5. inf / NaN / -0 (built by arithmetic), floats only
